@@ -276,7 +276,7 @@ def numeric_search(pc: Sequence[T], goal: Optional[T], vars_: Sequence[T], rng: 
 # ------------------------------------------------------------------------------ abstraction
 
 
-def abstract(ts: Sequence[T], limit: int = 10) -> List[T]:
+def abstract(ts: Sequence[T], limit: int = 10, atoms_as_vars: bool = False) -> List[T]:
     """Replace every large non-linear subterm by a fresh variable, consistently (the same term
     gets the same variable).  Sound for proving: fresh variables are unconstrained, so unsat
     of the abstraction implies unsat of the original (DESIGN §2.2 item 2)."""
@@ -294,6 +294,12 @@ def abstract(ts: Sequence[T], limit: int = 10) -> List[T]:
             or (x.op == "div" and not tm.is_const(x.args[1]))
             or x.op in ("powi", "fn")
         )
+        if atoms_as_vars and x.op in ("sqrt", "fn"):
+            v = tm.var(f"abs!{x.id}", x.sort)
+            out[x.id] = v
+            if x.op == "sqrt":
+                facts.append(tm.le(tm.const(0), v))
+            continue
         if nonlinear and size[x.id] > limit:
             v = tm.var(f"abs!{x.id}", x.sort)
             out[x.id] = v
@@ -361,22 +367,45 @@ def discharge(pc: Tuple[T, ...], goal: T, timeout_s: float, poly_backend=None) -
                 return done("proved", "ideal-sympy", text=why)
         except tm.Unsupported as e:
             res["text"] = f"poly: {e}"
-    # 2. SMT on the abstraction (big non-linear subterms → fresh variables)
+    # 2. congruence of opaque atoms (sqrt, trig, pow ...): unify provably equal applications
+    cpc, cgoal = pc, goal
     try:
-        ab, facts = abstract(list(pc) + [goal])
-        if any(a is not b for a, b in zip(ab, list(pc) + [goal])):
-            r, info, dt = z3_check(ab[:-1] + facts, ab[-1], int(min(timeout_s, 6.0) * 1000), want_model=False)
-            if r == "unsat":
-                return done("proved", "smt-z3-abstraction")
+        from . import canon
+
+        out, st = canon.canonicalise(list(pc) + [goal], budget_s=max(10.0, timeout_s * 3), pc=())
+        if st.get("merged"):
+            cpc, cgoal = tuple(out[:-1]), out[-1]
+            res["text"] += f" canon merged {st['merged']}/{st['atoms']} atoms;"
+            if cgoal is tm.TRUE or cgoal in cpc:
+                return done("proved", "congruence")
+            if cgoal.op == "eq" and cgoal.args[0] is cgoal.args[1]:
+                return done("proved", "congruence")
+            if poly_backend is not None and cgoal.op == "eq" and cgoal.args[0].sort != "B":
+                try:
+                    ok, why = poly_backend(cpc, cgoal.args[0], cgoal.args[1], max(2.0, timeout_s))
+                    if ok:
+                        return done("proved", "congruence+ideal-sympy", text=why)
+                except tm.Unsupported:
+                    pass
     except tm.Unsupported:
         pass
-    # 3. SMT on the full VC
+    tag = "congruence+" if cgoal is not goal else ""
+    # 3. SMT on the abstraction (big non-linear subterms → fresh variables)
     try:
-        r, info, dt = z3_check(pc, goal, int(timeout_s * 1000))
+        ab, facts = abstract(list(cpc) + [cgoal])
+        if any(a is not b for a, b in zip(ab, list(cpc) + [cgoal])):
+            r, info, dt = z3_check(ab[:-1] + facts, ab[-1], int(min(timeout_s, 6.0) * 1000), want_model=False)
+            if r == "unsat":
+                return done("proved", tag + "smt-z3-abstraction")
+    except tm.Unsupported:
+        pass
+    # 4. SMT on the full VC
+    try:
+        r, info, dt = z3_check(cpc, cgoal, int(timeout_s * 1000))
     except tm.Unsupported as e:
         return done("unknown", "z3", text=f"unsupported: {e}")
     if r == "unsat":
-        return done("proved", "smt-z3")
+        return done("proved", tag + "smt-z3")
     if r == "sat":
         return done("refuted", "smt-z3", env=info, text="z3 model")
     return done("unknown", "smt-z3", text=f"z3: {info}; {res['text']}")
